@@ -36,6 +36,8 @@ func init() {
 	more["strings.Split"] = libSplit
 	more["strconv.Atoi"] = libAtoi
 	more["strings.Contains"] = libContains
+	more["strings.LastIndex"] = libIndexOf
+	more["strings.Index"] = libIndexOf
 	for k, v := range more {
 		libModels[k] = v
 	}
@@ -444,4 +446,15 @@ func libAtoi(g *FuncGen, c *ast.CallExpr, callee *types.Func, st *State) []Val {
 	g.assume(st, fmt.Sprintf("(=> (= %s 0) (= %s (atoi %s)))", res[1].T, res[0].T, s.T))
 	g.assume(st, fmt.Sprintf("(=> (and (= %s 0) (allDigits %s)) (>= %s 0))", res[1].T, s.T, res[0].T))
 	return res
+}
+
+// strings.Index / strings.LastIndex: -1 when the separator does not occur, otherwise the start of an occurrence
+func libIndexOf(g *FuncGen, c *ast.CallExpr, callee *types.Func, st *State) []Val {
+	a := g.ev(c.Args[0], st)
+	b := g.ev(c.Args[1], st)
+	r := g.freshVal(st, "idx", types.Typ[types.Int])
+	g.assume(st, fmt.Sprintf("(and (<= (- 1) %s) (=> (>= %s 0) (<= (+ %s (blen %s)) (blen %s))))", r.T, r.T, r.T, b.T, a.T))
+	g.assume(st, fmt.Sprintf("(= (>= %s 0) (contains %s %s))", r.T, a.T, b.T))
+	g.assume(st, fmt.Sprintf("(=> (>= %s 0) (= (bsub %s %s (+ %s (blen %s))) %s))", r.T, a.T, r.T, r.T, b.T, b.T))
+	return []Val{r}
 }
